@@ -150,14 +150,13 @@ theorem k1Stage_step {P : Params Rat} {F : Rat → List Rat → Rat → List Rat
   · exact ⟨_, hyp⟩
   · exact ⟨_, orReduce_step f hyp hs⟩
 
-theorem rk1Stage_step {P : Params Rat} {F : Rat → List Rat → Rat → List Rat} {tol : List Rat} {h : Rat} {n : Nat}
+theorem rk1Stage_step {P : Params Rat} {F : Rat → List Rat → Rat → List Rat} {t0 : Rat} {tol : List Rat} {h hSum : Rat} {n : Nat}
     {ch : Chem Rat} {k : Chem Rat → Outcome Rat} {o : Outcome Rat} :
     letI := ratOps f
-    rk1Stage P F tol h n ch k = o → IsStep o → ∃ c1, k c1 = o := by
+    rk1Stage P F t0 tol h hSum n ch k = o → IsStep o → ∃ c1, k c1 = o := by
   intro hyp hs
   unfold rk1Stage at hyp
   split_ifs at hyp
-  · subst hyp; exact absurd hs (by simp [IsStep])
   · exact ⟨_, orExit_step hyp hs⟩
   · exact ⟨_, hyp⟩
 
